@@ -2619,6 +2619,10 @@ def convert_shape_op_to_constant_tensor(op: Operation, arch, nng):
         if len(ifm.shape) != ofm.shape[0]:
             return op
 
+        if ofm.quantization is not None and ofm.quantization.is_per_axis():
+            # the constant would have to be copied to its consumers by operations that cannot handle per-axis quantization
+            return op
+
         # Remove reference of the current shape op from the parent tensor's consumer list
         ifm.consumer_list = [consumer for consumer in ifm.consumer_list if consumer is None or consumer.op_index != op.op_index]
 
